@@ -67,6 +67,9 @@ def run(ctx):
     # reaches every dispatch - a silently replaced count changes what "the k-th masked component" is)
     from . import c07
     ctx.rule(c07.rule_phase_count, 'C03.R12')
+    # ... and with the mask amplitude the selected mode prescribes for that layer (the k-th masked component is the
+    # masked extraction of the residual with frequency k and amplitude k)
+    ctx.rule(c07.rule_amplitude, 'C03.R12')
     from . import l2
     ctx.rule(l2.rule_inplace_input_dtype, 'C03.R11', ['emd.sift.sift', 'emd.sift.mask_sift', 'emd.sift.ensemble_sift',
                                                      'emd.sift.complete_ensemble_sift', 'emd.sift.get_next_imf',
